@@ -45,6 +45,10 @@ def run(ctx):
                     f = msggen.frame(key, p)
                     cmds.append("PARSE %d 1 %d %s" % (mode, bf, f.hex()))
                     cases.append((mode, name, d, key, p, bf, f))
+                    if mode in (1, 2):
+                        # the same frame with the mode left to SETPOLL, under both bitfield views (every option has to
+                        # reach the parse that finally runs)
+                        cmds.append("PARSE 3 1 %d %s" % (bf, f.hex()))
     # variant sweep: every row of VARIANTS x every payload length around the lengths the selectors test x every
     # discriminator byte value the selectors test (and neighbours): model and implementation must select alike
     from pyubx2.ubxvariants import VARIANTS
